@@ -27,12 +27,14 @@ def get (o : Opts) (m : Store) (k : String) (now : Int) : Except Err Rec :=
 def store (b : Backend) (m : Store) (r : Rec) : Store :=
   if r.md.isDeleted then m.del r.key else m.put (stored b r)
 
+/-- A write is refused when the key holds a visible record the interface may not see. -/
+def blocked (o : Opts) (m : Store) (k : String) (now : Int) : Bool :=
+  !o.all && (match vis now (m.get k) with
+             | some old => !old.md.permitted o.loc o.int
+             | none => false)
+
 def put (b : Backend) (o : Opts) (m : Store) (r : Rec) (now : Int) (isNew : Bool) : Store × Out :=
-  let blocked : Bool :=
-    !o.all && (match vis now (m.get r.key) with
-               | some old => !old.md.permitted o.loc o.int
-               | none => false)
-  if blocked then (m, .err .denied)
+  if blocked o m r.key now then (m, .err .denied)
   else
     let md := if isNew then r.md.reset else r.md
     (store b m { r with md := o.apply md now }, .ok)
